@@ -10,6 +10,9 @@ READ_PROGRESS = ("ReadCtxt::<'a>::read_u8", "ReadCtxt::<'a>::read_i8", "ReadCtxt
                  "ReadCtxt::<'a>::read_u32be", "ReadCtxt::<'a>::read_i32be", "ReadCtxt::<'a>::read_u64be", "ReadCtxt::<'a>::read_i64be")
 
 
+MIGRATE = []
+
+
 def natural_loops(b):
     """list of (header, body set, back edge sources)"""
     loops = {}
@@ -106,9 +109,23 @@ def progress_witness(fx, b, header, body):
                     for (bb, idx, kind, item) in d:
                         if kind == "assign" and item["rv"]["k"] == "bin" and item["rv"]["bop"] in ("AddWithOverflow", "SubWithOverflow"):
                             a, c = item["rv"]["a"], item["rv"]["b"]
-                            if (c["k"] == "const" and c.get("val")) or positive_const_local(b, c):
+                            if (c["k"] == "const" and c.get("val")) or positive_const_local(b, c, prov):
                                 if a["k"] in ("copy", "move") and place_key(b, a["p"]) == place_key(b, s["p"]):
                                     upd.setdefault(place_key(b, s["p"]), set()).add(n)
+    # x = y where y is a counter that runs ahead of x (`for j in i + 1..n { .. i = j; continue 'outer }` written as a while loop)
+    for n in body:
+        for s in b.stmts(n):
+            if s["k"] == "assign" and s["rv"]["k"] == "use" and not s["p"]["p"]:
+                o = s["rv"]["op"]
+                if o["k"] in ("copy", "move") and not o["p"]["p"]:
+                    xk = place_key(b, s["p"])
+                    src = o["p"]["l"]
+                    # follow one copy (`_t = j; i = move _t`)
+                    sd = b.single_def(src)
+                    if sd and sd[2] == "assign" and sd[3]["rv"]["k"] == "use" and sd[3]["rv"]["op"]["k"] in ("copy", "move") and not sd[3]["rv"]["op"]["p"]["p"]:
+                        src = sd[3]["rv"]["op"]["p"]["l"]
+                    if src != s["p"]["l"] and xk in upd and leading_counter(b, prov, body, xk, src):
+                        upd[xk].add(n)
     # exit conditions: switches in the loop with a successor outside the loop
     exit_terms = []
     for n in body:
@@ -147,19 +164,45 @@ def nonzero_guarded(b, prov, header, op):
     return False
 
 
-def positive_const_local(b, op):
-    """operand is a local all of whose definitions assign positive integer constants"""
+def positive_const_local(b, op, prov=None):
+    """operand is a local all of whose definitions assign positive integer constants (directly, or through the arms of nested
+    `match`/`if` expressions merged into it)"""
     l = op_local(op)
     if l is None:
         return False
-    ds = b.defs().get(l, [])
+    prov = prov or sym.Prov(b)
+    alts = sym.alternatives(b, prov, ("local", l, b.local_name(l)), limit=12)
+    if not alts:
+        return False
+    for _db, v in alts:
+        v = sym.strip(v)
+        if v[0] != "c" or not isinstance(v[1], int) or isinstance(v[1], bool) or v[1] <= 0:
+            return False
+    return True
+
+
+def leading_counter(b, prov, body, x_key, y_local):
+    """y runs ahead of x inside the loop: every definition of y in the loop body is `y = x + c` or `y = y + c` with c > 0
+    (so `x = y` moves x forward)"""
+    ds = [d for d in b.defs().get(y_local, []) if d[0] in body]
     if not ds:
         return False
     for (bb, idx, kind, item) in ds:
-        if kind != "assign" or item["rv"]["k"] != "use" or item["rv"]["op"]["k"] != "const":
+        if kind != "assign":
             return False
-        v = item["rv"]["op"].get("val")
-        if not isinstance(v, int) or v <= 0:
+        t = sym.strip(prov.rvalue(item["rv"]))
+        # through the checked pair: y = (AddWithOverflow(a, c)).0
+        if t[0] == "field" and sym.strip(t[1])[0] == "bin":
+            t = sym.strip(t[1])
+        if not (t[0] == "bin" and t[1].replace("WithOverflow", "") == "Add"):
+            return False
+        a, c = sym.strip(t[2]), sym.strip(t[3])
+        if not (c[0] == "c" and isinstance(c[1], int) and c[1] > 0):
+            return False
+        base = a[1] if a[0] in ("local", "arg") else None
+        if base is None:
+            return False
+        if base != y_local and place_key(b, {"l": base, "p": []}) != x_key:
             return False
     return True
 
@@ -246,8 +289,14 @@ def rule_loops(run, fx, rule="C01-f", floors=True, select=None):
             run.ok(rule, "%s loop@bb%d: %s" % (b.path, h, w))
         else:
             # key: function + ordinal of the loop among the function's unwitnessed loops is unstable; use header statement callee set
-            calls = sorted({(b.term(x)["callee"].get("name") or "?") for x in body if b.term(x)["k"] == "call"})
+            # the functions of this crate that the loop calls name the loop; std helpers (checked_sub, ok_or, deref, ..) come and go with the
+            # spelling of the same code and are left out. A new call into the crate inside an audited loop re-opens the audit.
+            crate = fx.raw["crate"]
+            calls = sorted({(b.term(x)["callee"].get("name") or "?") for x in body
+                            if b.term(x)["k"] == "call" and b.term(x)["callee"].get("krate") == crate})
             key = "loop|%s|%s" % (b.root, ",".join(calls)[:120])
+            old_calls = sorted({(b.term(x)["callee"].get("name") or "?") for x in body if b.term(x)["k"] == "call"})
+            MIGRATE.append(("loop|%s|%s" % (b.root, ",".join(old_calls)[:120]), key))
             run.fail(rule, key, "loop has no progress witness (not iterator-driven; no positive-size read, stepped counter or shrinking collection on every path)",
                      b.loc(b.term(h)), ledger="loops")
     run.analysed.setdefault("loops", {})[run.config] = {"iterator_driven": n_iter, "hand_written": n_hand}
